@@ -103,6 +103,9 @@ def list_of_generator(generator):
 def take_first(generator, n):
     """Returns the first n values in the generator."""
     ret = []
+    if n <= 0:
+        # nothing to take: do not advance the generator at all
+        return ret
     for i, task in enumerate(generator):
         value = yield task
         if value is END_OF_GENERATOR:
